@@ -73,9 +73,14 @@ def check(run):
     STAT = {'get_min', 'get_max', 'get_min_length', 'get_max_length', 'get_nunique', 'get_null_count', 'get_non_null_count', 'get_nrecords',
             'calc_min', 'calc_max', 'calc_min_length', 'calc_max_length', 'calc_nunique', 'calc_null_count', 'calc_non_null_count',
             'len', 'sum', 'count', 'nunique', 'min', 'max', 'execute_scalar', 'agg'}
+    # where statistics of a column live: the discoverer / verifier / calculator / database-handler classes (a len() in a helper that
+    # takes a field *name* apart is not a statistic)
+    def holds_statistics(f):
+        k = f.cls.name if f.cls is not None else (f.parent.cls.name if getattr(f, 'parent', None) is not None and f.parent.cls is not None else '')
+        return any(w in k for w in ('Constraint', 'DatabaseHandler', 'Discoverer', 'Verifier', 'Calculator'))
     n = zero_rule(run, 'C07-ZERO', p, [f for f in p.funcs.values() if f.rel in (
         'tdda/constraints/baseconstraints.py', 'tdda/constraints/pd/constraints.py', 'tdda/constraints/db/drivers.py',
-        'tdda/constraints/db/constraints.py')], STAT,
+        'tdda/constraints/db/constraints.py') and holds_statistics(f)], STAT,
                   'zero is a statistic: a minimum, maximum, length or count obtained from the calculators or the database is compared '
                   'or tested with `is None`, never used as a bare condition (a minimum of 0 or an empty shortest string would '
                   'otherwise be reported as absent)')
